@@ -9,7 +9,7 @@ git -C /repo worktree add --detach $WT HEAD >/dev/null 2>&1 || exit 3
 export CARGO_TARGET_DIR=$TGT CARGO_NET_OFFLINE=true RUST_BACKTRACE=0
 cd $WT
 for P in "$@"; do
-  for N in 1 2; do
+  for N in ${CMN:-1 2}; do
     D=${MUTBASE:-/tmp/mut}/$P/MUTANTS
     [ -f $D/m$N.diff ] || { echo "$P m$N: missing" > $RES/$P-$N.txt; continue; }
     git checkout -q -- . ; rm -f tests/mutdemo_*.rs
